@@ -257,7 +257,7 @@ fn one_step<const N: usize, const H: usize>() {
 }
 
 // DijkstraDist::distances over every simple digraph with <= 4 arcs on 4 vertices, weights < 16, <= 2 sources.
-// @verif prop=C03 tier=quick fl=f2 role=distances/sparse t=1200 mem=14
+// @verif prop=C03 tier=thorough fl=f2 role=distances/sparse t=3600 mem=30
 #[cfg_attr(kani, kani::proof)]
 #[cfg_attr(kani, kani::unwind(10))]
 pub fn c03_distances_sparse_n4_m4() {
@@ -265,7 +265,7 @@ pub fn c03_distances_sparse_n4_m4() {
 }
 
 // Dijkstra iteration order/uniqueness, <= 4 arcs on 4 vertices.
-// @verif prop=C03 tier=quick fl=f2 role=iter/sparse t=1200 mem=14
+// @verif prop=C03 tier=thorough fl=f2 role=iter/sparse t=3600 mem=30
 #[cfg_attr(kani, kani::proof)]
 #[cfg_attr(kani, kani::unwind(10))]
 pub fn c03_iter_sparse_n4_m4() {
@@ -273,7 +273,7 @@ pub fn c03_iter_sparse_n4_m4() {
 }
 
 // DijkstraDist iteration with exact distances, <= 4 arcs on 4 vertices.
-// @verif prop=C03 tier=quick fl=f2 role=iter-dist/sparse t=1200 mem=14
+// @verif prop=C03 tier=thorough fl=f2 role=iter-dist/sparse t=3600 mem=30
 #[cfg_attr(kani, kani::proof)]
 #[cfg_attr(kani, kani::unwind(10))]
 pub fn c03_iter_dist_sparse_n4_m4() {
@@ -281,7 +281,7 @@ pub fn c03_iter_dist_sparse_n4_m4() {
 }
 
 // The same through AdjacencyListWeighted<usize>, <= 3 arcs on 3 vertices.
-// @verif prop=C03 tier=quick fl=f2 role=distances/repr t=1200 mem=14
+// @verif prop=C03 tier=thorough fl=f2 role=distances/repr t=3600 mem=30
 #[cfg_attr(kani, kani::proof)]
 #[cfg_attr(kani, kani::unwind(10))]
 pub fn c03_distances_repr_n3_m3() {
@@ -310,9 +310,380 @@ pub fn c03_one_step_n4_h4() {
     one_step::<4, 4>();
 }
 
-// @verif prop=C03 tier=quick fl=f2 role=distances/sparse t=1200 mem=14
+// @verif prop=C03 tier=thorough fl=f2 role=distances/sparse t=3600 mem=30
 #[cfg_attr(kani, kani::proof)]
 #[cfg_attr(kani, kani::unwind(5))]
 pub fn c03_distances_sparse_n3_m3() {
     distances_sparse::<3, 3>();
+}
+
+// ---------------------------------------------------------------------------
+// Inductive form: base + one step from an ARBITRARY state satisfying the
+// invariant. Covers histories of any length for the stated N (and pre-states
+// with at most H heap entries).
+// ---------------------------------------------------------------------------
+
+/// Dense symbolic weights `< wmax` on N vertices.
+pub fn any_dense<const N: usize>(wmax: usize) -> WG<N, usize> {
+    let mut g = WG::<N, usize>::empty();
+
+    for u in 0..N {
+        for v in 0..N {
+            if u != v && nd::bool() {
+                g.w[u][v] = Some(nd::below(wmax));
+            }
+        }
+    }
+
+    g
+}
+
+/// One heap entry as the harness sees it: key, vertex, and (DijkstraPred
+/// only) the predecessor carried by the entry.
+#[derive(Clone, Copy)]
+pub struct Entry {
+    pub k: usize,
+    pub v: usize,
+    pub p: Option<usize>,
+}
+
+/// The Dijkstra invariant over (dist, heap entries, settled set), relative to
+/// the source set and the true distances `delta`. `with_pred`: also the
+/// predecessor clause of DijkstraPred entries.
+pub fn invariant<const N: usize, const H: usize>(
+    g: &WG<N, usize>,
+    src: &[bool; N],
+    delta: &[usize; N],
+    dist: &[usize; N],
+    entries: &[Entry; H],
+    h: usize,
+    settled: &[bool; N],
+    bound: usize,
+    with_pred: bool,
+) -> bool {
+    let mut ok = h <= H;
+
+    for v in 0..N {
+        // 1. never below the true distance; 7. finite values are bounded
+        ok &= dist[v] >= delta[v];
+        ok &= dist[v] == INF || dist[v] <= bound;
+
+        // 2. sources are at distance 0
+        if src[v] {
+            ok &= dist[v] == 0;
+        }
+
+        let mut live = false;
+
+        for i in 0..H {
+            if i < h && entries[i].v == v && entries[i].k == dist[v] {
+                live = true;
+            }
+        }
+
+        if settled[v] {
+            // 3. settled: exact, and all out-arcs relaxed; 6. no live entry
+            ok &= dist[v] == delta[v] && delta[v] != INF;
+            ok &= !live;
+
+            for x in 0..N {
+                if let Some(w) = g.w[v][x] {
+                    ok &= dist[x] <= dist[v].saturating_add(w);
+                }
+            }
+        } else if dist[v] != INF {
+            // 4. discovered but unsettled: a live entry exists
+            ok &= live;
+        }
+    }
+
+    for i in 0..H {
+        if i < h {
+            let e = entries[i];
+
+            // 5. keys are never below the vertex's distance nor below any
+            //    settled distance
+            ok &= e.v < N && e.k <= bound && e.k >= dist[e.v];
+
+            for u in 0..N {
+                if settled[u] {
+                    ok &= e.k >= dist[u];
+                }
+            }
+
+            // 8. the predecessor carried by an entry explains its key
+            if with_pred {
+                match e.p {
+                    None => ok &= src[e.v] && e.k == 0,
+                    Some(x) => {
+                        ok &= x < N && settled[x];
+
+                        if x < N {
+                            match g.w[x][e.v] {
+                                Some(w) => ok &= e.k == dist[x].saturating_add(w),
+                                None => ok = false,
+                            }
+                        }
+                    }
+                }
+            }
+        }
+    }
+
+    ok
+}
+
+fn read_heap_dist<const H: usize>(it: &DijkstraDist<'_, WG<3, usize>>) -> ([Entry; H], usize, bool) {
+    let mut out = [Entry { k: 0, v: 0, p: None }; H];
+    let mut n = 0;
+    let mut overflow = false;
+
+    for e in it.heap.iter() {
+        if n < H {
+            out[n] = Entry { k: (e.0).0, v: e.1, p: None };
+            n += 1;
+        } else {
+            overflow = true;
+        }
+    }
+
+    (out, n, overflow)
+}
+
+/// Base case: the state built by `DijkstraDist::new` satisfies the invariant
+/// with nothing settled.
+fn dist_base() {
+    const N: usize = 3;
+
+    cx::set_vcap(8);
+
+    let g = any_dense::<N>(WMAX);
+    let src: [bool; N] = nd::bools();
+    let delta = g.dist(&src);
+    let it = DijkstraDist::new(&g, mask(src));
+    let (entries, h, overflow) = read_heap_dist::<4>(&it);
+    let dist = [it.dist[0], it.dist[1], it.dist[2]];
+
+    assert!(!overflow && it.dist.len() == N, "initial state shape");
+    assert!(
+        invariant::<N, 4>(&g, &src, &delta, &dist, &entries, h, &[false; N], N * WMAX, false),
+        "the initial state satisfies the Dijkstra invariant"
+    );
+    kani::cover!(h == 3, "three sources");
+    core::mem::forget(it);
+}
+
+/// Inductive step for DijkstraDist on 3 vertices: any pre-state satisfying the
+/// invariant with at most H heap entries; one next(); the yield obligations
+/// and the invariant of the post-state.
+fn dist_step<const H: usize, const H2: usize>() {
+    const N: usize = 3;
+
+    cx::set_vcap(8);
+
+    let g = any_dense::<N>(WMAX);
+    let src: [bool; N] = nd::bools();
+    let delta = g.dist(&src);
+    let bound = N * WMAX;
+    let mut it = DijkstraDist::new(&g, mask([false; N]));
+    let mut dist = [INF; N];
+    let settled: [bool; N] = nd::bools();
+    let h = nd::below(H + 1);
+    let mut entries = [Entry { k: 0, v: 0, p: None }; H];
+
+    for v in 0..N {
+        dist[v] = nd::usize();
+        it.dist[v] = dist[v];
+    }
+
+    for i in 0..H {
+        entries[i] = Entry { k: nd::usize(), v: nd::below(N), p: None };
+
+        if i < h {
+            it.heap.push((core::cmp::Reverse(entries[i].k), entries[i].v));
+        }
+    }
+
+    kani::assume(invariant::<N, H>(&g, &src, &delta, &dist, &entries, h, &settled, bound, false));
+
+    let r = it.next();
+    let (post, h2, overflow) = read_heap_dist::<H2>(&it);
+    let dist2 = [it.dist[0], it.dist[1], it.dist[2]];
+
+    assert!(!overflow, "post-state heap fits the harness buffer");
+
+    match r {
+        Some((u, d)) => {
+            assert!(u < N && !settled[u], "a vertex is yielded at most once");
+            assert!(d == delta[u] && d != INF, "the item carries the exact distance of a reachable vertex");
+
+            for x in 0..N {
+                if settled[x] {
+                    assert!(d >= dist[x], "non-decreasing distance order");
+                }
+            }
+
+            let mut settled2 = settled;
+
+            settled2[u] = true;
+
+            assert!(
+                invariant::<N, H2>(&g, &src, &delta, &dist2, &post, h2, &settled2, bound, false),
+                "next() preserves the Dijkstra invariant"
+            );
+        }
+        None => {
+            for v in 0..N {
+                assert!(dist2[v] == delta[v], "at exhaustion every distance is exact (MAX iff unreachable)");
+                assert!(settled[v] == (delta[v] != INF), "at exhaustion exactly the reachable vertices were yielded");
+            }
+        }
+    }
+
+    kani::cover!(r.is_none() && settled[2] && !settled[0], "exhaustion with a partially reachable digraph");
+    kani::cover!(r.is_some() && h == H && h2 >= h, "a step that pushes at least as many entries as it pops");
+    core::mem::forget(it);
+}
+
+/// The same step for `Dijkstra` (items are bare vertices).
+fn plain_step<const H: usize, const H2: usize>() {
+    const N: usize = 3;
+
+    cx::set_vcap(8);
+
+    let g = any_dense::<N>(WMAX);
+    let src: [bool; N] = nd::bools();
+    let delta = g.dist(&src);
+    let bound = N * WMAX;
+    let mut it = Dijkstra::new(&g, mask([false; N]));
+    let mut dist = [INF; N];
+    let settled: [bool; N] = nd::bools();
+    let h = nd::below(H + 1);
+    let mut entries = [Entry { k: 0, v: 0, p: None }; H];
+
+    for v in 0..N {
+        dist[v] = nd::usize();
+        it.dist[v] = dist[v];
+    }
+
+    for i in 0..H {
+        entries[i] = Entry { k: nd::usize(), v: nd::below(N), p: None };
+
+        if i < h {
+            it.heap.push((core::cmp::Reverse(entries[i].k), entries[i].v));
+        }
+    }
+
+    kani::assume(invariant::<N, H>(&g, &src, &delta, &dist, &entries, h, &settled, bound, false));
+
+    let r = it.next();
+    let mut post = [Entry { k: 0, v: 0, p: None }; H2];
+    let mut h2 = 0;
+    let mut overflow = false;
+
+    for e in it.heap.iter() {
+        if h2 < H2 {
+            post[h2] = Entry { k: (e.0).0, v: e.1, p: None };
+            h2 += 1;
+        } else {
+            overflow = true;
+        }
+    }
+
+    let dist2 = [it.dist[0], it.dist[1], it.dist[2]];
+
+    assert!(!overflow, "post-state heap fits the harness buffer");
+
+    match r {
+        Some(u) => {
+            assert!(u < N && !settled[u], "a vertex is yielded at most once");
+            assert!(dist2[u] == delta[u] && delta[u] != INF, "a yielded vertex is reachable and its distance is final");
+
+            for x in 0..N {
+                if settled[x] {
+                    assert!(delta[u] >= dist[x], "non-decreasing distance order");
+                }
+            }
+
+            let mut settled2 = settled;
+
+            settled2[u] = true;
+
+            assert!(
+                invariant::<N, H2>(&g, &src, &delta, &dist2, &post, h2, &settled2, bound, false),
+                "next() preserves the Dijkstra invariant"
+            );
+        }
+        None => {
+            for v in 0..N {
+                assert!(settled[v] == (delta[v] != INF), "at exhaustion exactly the reachable vertices were yielded");
+            }
+        }
+    }
+
+    kani::cover!(r.is_some() && h == H, "a step from a full pre-state");
+    core::mem::forget(it);
+}
+
+/// distances() is the fold of the yielded items into a MAX-initialised
+/// vector: whole run on 2 vertices.
+fn distances_wrapper_n2() {
+    const N: usize = 2;
+
+    cx::set_vcap(6);
+
+    let g = any_dense::<N>(WMAX);
+    let src: [bool; N] = nd::bools();
+    let delta = g.dist(&src);
+    let mut it = DijkstraDist::new(&g, mask(src));
+    let d = it.distances();
+
+    assert!(d.len() == N, "one entry per vertex");
+
+    for v in 0..N {
+        assert!(d[v] == delta[v], "distances()[v] = min walk weight, MAX iff unreachable");
+    }
+
+    kani::cover!(delta[1] != INF && delta[1] > 0, "vertex 1 reached over an arc");
+    core::mem::forget(d);
+    core::mem::forget(it);
+}
+
+// Base case of the induction: DijkstraDist::new establishes the invariant (3 vertices, any sources, weights < 2^62).
+// @verif prop=C03 tier=quick fl=f2 role=inductive/base t=1200 mem=14
+#[cfg_attr(kani, kani::proof)]
+#[cfg_attr(kani, kani::unwind(6))]
+pub fn c03_dist_base_n3() {
+    dist_base();
+}
+
+// Inductive step of DijkstraDist::next from ANY invariant state (3 vertices, <= 3 heap entries, weights < 2^62): covers histories of any length.
+// @verif prop=C03 tier=quick fl=f2 role=inductive/dist-step t=1800 mem=20
+#[cfg_attr(kani, kani::proof)]
+#[cfg_attr(kani, kani::unwind(6))]
+pub fn c03_dist_step_n3_h3() {
+    dist_step::<3, 5>();
+}
+
+// Inductive step of Dijkstra::next from any invariant state (3 vertices, <= 3 heap entries).
+// @verif prop=C03 tier=quick fl=f2 role=inductive/plain-step t=1800 mem=20
+#[cfg_attr(kani, kani::proof)]
+#[cfg_attr(kani, kani::unwind(6))]
+pub fn c03_plain_step_n3_h3() {
+    plain_step::<3, 5>();
+}
+
+// distances() wrapper, whole run, 2 vertices.
+// @verif prop=C03 tier=quick fl=f2 role=distances/whole-run-n2 t=1200 mem=14
+#[cfg_attr(kani, kani::proof)]
+#[cfg_attr(kani, kani::unwind(5))]
+pub fn c03_distances_wrapper_n2() {
+    distances_wrapper_n2();
+}
+
+// @verif prop=C03 tier=thorough fl=f2 role=inductive/dist-step t=3600 mem=30
+#[cfg_attr(kani, kani::proof)]
+#[cfg_attr(kani, kani::unwind(8))]
+pub fn c03_dist_step_n3_h5() {
+    dist_step::<5, 7>();
 }
